@@ -197,6 +197,11 @@ def main(chk):
     if calib:
         chk.machinery("oracle calibration: StmtShapes.tla disagrees with a cold, cache-less execution on %d case(s), e.g. %s" % (
             len(calib), "; ".join("%s V%d %s: %s" % (m["shape"], m["p"], m["field"], m["text"][:200]) for m in calib[:3])))
+    if chk.violations:
+        # the cold executions already violate the property: the verdict is decided, the (long) graph replay adds nothing to it
+        return chk.finish(dict(states=rt.distinct, transitions=rt.generated, traces_validated_against_impl=0, evaluations=tc.n,
+                               shape_cases_executed_cold=tc.n, samples=[v[1] for v in chk.violations[:3]],
+                               graph_phase="skipped: the shape table already shows violations"), assumptions=[])
     names = sorted(table)
     # 2. cache graphs of sampled groups of one-attribute neighbours
     ngroups = 6 if chk.quick else 20
